@@ -60,6 +60,11 @@ CLAIMS['C14'] = ('proof',
     '(Verus, unbounded): rollback to s returns exactly the changes recorded after s, cuts the log back to s, keeps s alive, destroys later savepoints, resolves a duplicated name to the most recent savepoint; RELEASE '
     'removes only that savepoint and touches no change; no panic. That every DML executor records its changes (UPDATE/DELETE do not - see DESIGN.md) and that undo_change restores table contents are not covered.',
     _B_NOTE, 'contract-based deductive verification: Verus on mechanically extracted functions', 'DESIGN.md 5/C14')
+CLAIMS['C03'] = ('proof',
+    'Kernel contracts only: the integer SIMD kernels used by the columnar aggregate path are proved for all columns of all lengths (Verus, loop invariants over the 4-wide and remainder loops): simd_sum_i64 is the exact '
+    'mathematical sum (i128, cannot overflow), simd_min_i64/simd_max_i64 are None iff empty else the minimum/maximum, simd_count is the length - i.e. the SQL definitions the row path implements. '
+    'The gate should_use_columnar, NULL handling and result typing in simd_aggregate_i64 / columnar/aggregate.rs, f64 kernels, HAVING/ORDER/LIMIT on the columnar result are not under contract.',
+    _B_NOTE, 'contract-based deductive verification: Verus on mechanically extracted functions with loop invariants', 'DESIGN.md 5/C03')
 NOT_APPLICABLE = {
     'C04': 'concurrency/rayon scheduling: Kani has no threads, Verus needs permission-typed code; the determinism-relevant comparator laws are claimed under C21/C08',
     'C05': 'every anchor is an AST-to-plan transformation or a join operator over Database/evaluator state: AST walks do not finish in CBMC and the code is outside the Verus subset',
